@@ -7,6 +7,7 @@ package main
 import (
 	"encoding/json"
 	"fmt"
+	"math"
 	"math/rand"
 	"sort"
 	"strings"
@@ -76,6 +77,7 @@ func genTxnSchema(rng *rand.Rand, withRefs bool) TxnSchema {
 			ColSpec{Name: "n", Type: ColType{Kind: "atom", Key: "integer", Min: 1, Max: 1}})
 		extra := []ColSpec{
 			{Name: "tag", Type: ColType{Kind: "opt", Key: "string", Min: 0, Max: 1}},
+			{Name: "tag2", Type: ColType{Kind: "opt", Key: "string", Min: 0, Max: 1}},
 			{Name: "s", Type: ColType{Kind: "set", Key: "string", Min: 0, Max: -1}},
 			{Name: "m", Type: ColType{Kind: "map", Key: "string", Val: "string", Min: 0, Max: -1}},
 			{Name: "r", Type: ColType{Kind: "atom", Key: "real", Min: 1, Max: 1}},
@@ -130,7 +132,18 @@ func genTxnSchema(rng *rand.Rand, withRefs bool) TxnSchema {
 		for _, c := range t.Cols {
 			hasS = hasS || c.Name == "s"
 		}
-		switch rng.Intn(6) {
+		hasTags := 0
+		for _, c := range t.Cols {
+			if c.Name == "tag" || c.Name == "tag2" {
+				hasTags++
+			}
+		}
+		switch rng.Intn(7) {
+		case 6:
+			// two optional columns of one type: (unset, a) and (a, unset) are different tuples
+			if hasTags == 2 {
+				t.Indexes = [][]string{{"tag", "tag2"}}
+			}
 		case 5:
 			// a set column used whole (its value is unordered)
 			if hasS {
@@ -244,7 +257,7 @@ func classOf(e string) string {
 	switch e {
 	case "":
 		return ""
-	case "constraint violation", "referential integrity violation", "domain error", "not supported", "timed out":
+	case "constraint violation", "referential integrity violation", "domain error", "range error", "not supported", "timed out":
 		return e
 	}
 	return "other"
@@ -723,6 +736,12 @@ func genTxn(rng *rand.Rand, ts TxnSchema, sh *shadow, nops int) TxnJ {
 		}
 	case 24:
 		if op, ok := g.genWaitRow(); ok {
+			t.Ops = append(t.Ops, op)
+		}
+	case 25:
+		// arithmetic that leaves the range of the column's type: 2^62 times 2 or 3, 2^62 added twice,
+		// a real multiplied beyond the largest float64 (powers of two: every intermediate value is exact)
+		if op, ok := g.genOverflow(); ok {
 			t.Ops = append(t.Ops, op)
 		}
 	case 23:
@@ -1342,6 +1361,31 @@ func (g *txnGen) genOneIndexUpdate() []OperationJ {
 	return nil
 }
 
+// genOverflow: arithmetic mutations whose result may leave the range of the column's type
+func (g *txnGen) genOverflow() (OperationJ, bool) {
+	rng := g.rng
+	t := g.ts.Spec.Tables[rng.Intn(len(g.ts.Spec.Tables))]
+	var ms []MutationJ
+	big := int64(1) << 62
+	switch rng.Intn(4) {
+	case 0:
+		ms = []MutationJ{{Col: "n", Mutator: "*=", Val: VA(AI(big))}}
+	case 1:
+		ms = []MutationJ{{Col: "n", Mutator: "+=", Val: VA(AI(big))}, {Col: "n", Mutator: "+=", Val: VA(AI(big))}}
+	case 2:
+		ms = []MutationJ{{Col: "n", Mutator: "-=", Val: VA(AI(big))}, {Col: "n", Mutator: "-=", Val: VA(AI(big))}, {Col: "n", Mutator: "-=", Val: VA(AI(big))}}
+	default:
+		if t.Col("r") == nil {
+			return OperationJ{}, false
+		}
+		ms = []MutationJ{{Col: "r", Mutator: "*=", Val: VA(AR(math.Ldexp(1, 1023)))}}
+		if rng.Intn(2) == 0 {
+			ms = []MutationJ{{Col: "r", Mutator: "/=", Val: VA(AR(math.Ldexp(1, -1000)))}, {Col: "r", Mutator: "/=", Val: VA(AR(math.Ldexp(1, -1000)))}}
+		}
+	}
+	return OperationJ{Op: "mutate", Table: t.Name, Mutations: ms, Where: g.genWhere(t)}, true
+}
+
 // genTupleConfuse: an index over two columns of one type is keyed by the pair, not by what is left of it once
 // default values are taken out: two rows ("", x) and (x, "") are inserted (different tuples, both legal), and
 // the next transaction claims the tuple of the first one (which must be refused)
@@ -1368,7 +1412,14 @@ func (g *txnGen) genTupleConfuse() []OperationJ {
 						}
 					}
 				}
-				row[ix[0]], row[ix[1]] = VA(AS(a)), VA(AS(b))
+				// (for optional columns the empty position is the unset optional)
+				val := func(col, v string) *Value {
+					if v == "" && t.Col(col).Type.Kind == "opt" {
+						return VS()
+					}
+					return VA(AS(v))
+				}
+				row[ix[0]], row[ix[1]] = val(ix[0], a), val(ix[1], b)
 				op := OperationJ{Op: "insert", Table: t.Name, Row: row, UUID: g.sh.fresh()}
 				g.inserted[t.Name] = append(g.inserted[t.Name], op.UUID)
 				return op
